@@ -413,6 +413,27 @@ def int_parameter_cases():
                     bad.append(f'parameters {par} {kw}: {k} differs from the same grid described with floats{err}')
             if set(items[0]) != set(items[1]):
                 bad.append(f'parameters {par} {kw}: attributes {sorted(set(items[0]) ^ set(items[1]))} exist for only one of the two spellings')
+    # parameters given as narrow numpy scalars (values read from single-precision file attributes): the grid is the one
+    # described by those values -- same as with the same values as Python floats; extents are the end points of the arrays
+    for par in (dict(Nx=12, Ny=9, Nz=7, xmin=-1000.0, ymin=0.1, zmin=-0.3, dx=0.1, dy=0.3, dz=0.7),
+                dict(Nx=33, Ny=6, Nz=6, xmin=0.3, ymin=-2.5, zmin=1 / 3, dx=1 / 3, dy=0.1, dz=0.01)):
+        for ft in (np.float32, np.float16, np.float64):
+            n += 1
+            npar = {k: (ft(v) if not k.startswith('N') else v) for k, v in par.items()}
+            fpar = {k: (float(ft(v)) if not k.startswith('N') else v) for k, v in par.items()}
+            try:
+                a = aurel.FiniteDifference(npar, verbose=False)
+                b = aurel.FiniteDifference(fpar, verbose=False)
+            except Exception as e:
+                bad.append(f'{ft.__name__} parameters {par}: constructor raised {type(e).__name__}: {e}')
+                continue
+            for c_ in 'xyz':
+                arr, mx, mn = getattr(a, c_ + 'array'), getattr(a, c_ + 'max'), getattr(a, c_ + 'min')
+                if float(mx) != float(arr[-1]) or float(mn) != float(arr[0]):
+                    bad.append(f'parameters given as {ft.__name__}: {c_}min / {c_}max = {float(mn)!r} / {float(mx)!r} are not the end points {float(arr[0])!r} / {float(arr[-1])!r} of {c_}array')
+                tol = 1e-12 if ft is np.float64 else 0.0
+                if not np.allclose(np.asarray(arr, dtype=float), np.asarray(getattr(b, c_ + 'array'), dtype=float), rtol=1e-6 if ft is not np.float64 else 1e-14, atol=1e-6 * abs(float(mn)) + 1e-9):
+                    bad.append(f'parameters given as {ft.__name__}: {c_}array differs from the grid described by the same values as Python floats')
     return bad, n
 
 
@@ -420,7 +441,7 @@ def int_parameter_obligation(R):
     t0 = time.time()
     bad, n = int_parameter_cases()
     R.bounded.append(dict(function='aurel.finitedifference.FiniteDifference (whole-number parameters)', bound=f'{n} grids: 6 parameter sets x 3 option sets, int vs float spelling'))
-    R.ob('fd.*:whole-number parameters written as int describe the same grid as written as float (every array attribute, spherical coordinates, round trip, derivatives)',
+    R.ob('fd.*:whole-number parameters written as int describe the same grid as written as float (every array attribute, spherical coordinates, round trip, derivatives); narrow numpy scalars likewise, extents = end points of the arrays',
          '__init__', 'refuted' if bad else 'bounded-ok', 'bounded-native', time.time() - t0, '; '.join(bad[:4]), bad[:6] or None, bounded=f'{n} grids',
          replay=lambda o: (lambda b: (bool(b[0]), '; '.join(b[0][:4]) or 'no difference'))(int_parameter_cases()))
 
